@@ -34,6 +34,10 @@ def main(argv):
     cmd = argv[0]
     if cmd == "replay":
         return runner.replay_file(argv[1])
+    if cmd == "_digests":
+        from dsim import selftest
+
+        return selftest.digests_cmd(argv[1], [int(x) for x in argv[3].split(",")], int(argv[2]))
     if cmd == "selftest-determinism":
         from dsim import selftest
 
